@@ -25,6 +25,11 @@ def run(ctx, crate):
     from .c02 import rule_slot_identity
     rule_slot_identity(ctx, crate)
     rule_target_setters(ctx, crate)
+    # "never invokes any terminal operation, for any call" - not later either: what is printed through a bar while its MultiProgress
+    # shows nothing is dropped, not queued for the next target (the println reaches the draw that drops it; the draw drops it)
+    from .c03 import rule_println_forced, rule_orphan_moved
+    rule_println_forced(ctx, crate)
+    rule_orphan_moved(ctx, crate)
 
 
 def rule_remove_hides(ctx, crate, rule="R-REMOVE-HIDES"):
